@@ -11,7 +11,7 @@
 //!    the input text; unknown extra fields never make it fail;
 //!  * `Raw<T>` returns the original text byte for byte, `get_field` agrees with a full parse and `deserialize` with
 //!    `from_str`.
-//! Family: 18 event types (room state, message-like, ephemeral, account data, to-device) with every optional field of a
+//! Family: 28 event types (room state, message-like, ephemeral, account data, to-device) with every optional field of a
 //! per-type list present/absent one at a time and all together, an unknown field added, keys in sorted and in reversed
 //! order, original and redacted, full and sync format, plus unknown event types of every kind.
 use std::collections::HashSet;
@@ -101,8 +101,18 @@ fn schemas() -> Vec<Schema> {
         s("m.room.canonical_alias", Kind::State, json!({}), vec![("alias", json!("#a:s")), ("alt_aliases", json!(["#b:s"]))]),
         s("m.room.history_visibility", Kind::State, json!({"history_visibility": "shared"}), vec![]),
         s("m.room.guest_access", Kind::State, json!({"guest_access": "can_join"}), vec![]),
+        s("m.room.server_acl", Kind::State, json!({"allow": ["*"], "deny": ["evil.org"]}), vec![("allow_ip_literals", json!(false))]),
+        s("m.room.encryption", Kind::State, json!({"algorithm": "m.megolm.v1.aes-sha2"}), vec![("rotation_period_ms", json!(604800001u64)), ("rotation_period_msgs", json!(101))]),
+        s("m.room.avatar", Kind::State, json!({}), vec![("url", json!("mxc://s/av")), ("info", json!({"h": 10, "w": 12, "mimetype": "image/png", "size": 99}))]),
+        s("m.room.pinned_events", Kind::State, json!({"pinned": ["$a:s", "$b:s"]}), vec![]),
+        s("m.space.child", Kind::State, json!({"via": ["s"]}), vec![("order", json!("a")), ("suggested", json!(true))]),
+        s("m.space.parent", Kind::State, json!({"via": ["s"]}), vec![("canonical", json!(true))]),
+        s("m.room.third_party_invite", Kind::State, json!({"display_name": "d", "key_validity_url": "https://s/v", "public_key": "YWJj"}), vec![("public_keys", json!([{"public_key": "ZGVm", "key_validity_url": "https://s/w"}]))]),
         s("m.room.tombstone", Kind::State, json!({"body": "moved", "replacement_room": "!new:s"}), vec![]),
         s("m.room.message", Kind::Message, json!({"msgtype": "m.text", "body": "hello"}), vec![("format", json!("org.matrix.custom.html")), ("formatted_body", json!("<b>hello</b>")), ("m.mentions", json!({"user_ids": ["@b:s"]}))]),
+        s("m.sticker", Kind::Message, json!({"body": "s", "info": {"h": 1, "w": 2}, "url": "mxc://s/st"}), vec![]),
+        s("m.room.encrypted", Kind::Message, json!({"algorithm": "m.megolm.v1.aes-sha2", "ciphertext": "abc", "sender_key": "k", "device_id": "D", "session_id": "S"}), vec![]),
+        s("m.call.hangup", Kind::Message, json!({"call_id": "c", "version": 0}), vec![("reason", json!("user_hangup"))]),
         s("m.reaction", Kind::Message, json!({"m.relates_to": {"rel_type": "m.annotation", "event_id": "$e", "key": "x"}}), vec![]),
         s("m.room.redaction", Kind::Message, json!({}), vec![("reason", json!("spam")), ("redacts", json!("$x"))]),
         s("m.typing", Kind::Ephemeral, json!({"user_ids": ["@a:s"]}), vec![]),
@@ -116,6 +126,15 @@ fn schemas() -> Vec<Schema> {
         s("org.example.unknown.acc", Kind::Account, json!({"anything": 1}), vec![]),
         s("org.example.unknown.td", Kind::ToDevice, json!({"anything": 1}), vec![]),
     ]
+}
+
+fn state_key_of(ty: &str) -> &'static str {
+    match ty {
+        "m.room.member" => "@a:s",
+        "m.space.child" | "m.space.parent" => "!child:s",
+        "m.room.third_party_invite" => "tok",
+        _ => "",
+    }
 }
 
 /// JSON text of a value with object keys in sorted or reversed order at every depth
@@ -207,7 +226,7 @@ fn check_event(acc: &mut Acc, s: &Schema, label: &str, content: &Value, redacted
         base.insert("origin_server_ts".into(), json!(1234));
         base.insert("room_id".into(), json!("!r:s"));
         if s.kind == Kind::State {
-            base.insert("state_key".into(), json!(if s.ty == "m.room.member" { "@a:s" } else { "" }));
+            base.insert("state_key".into(), json!(state_key_of(s.ty)));
         }
         if s.ty == "m.room.redaction" && !redacted {
             base.insert("redacts".into(), json!("$x"));
@@ -252,7 +271,7 @@ fn check_event(acc: &mut Acc, s: &Schema, label: &str, content: &Value, redacted
                             bad.push((0, "state / message-like dispatch does not follow the presence of state_key".into()));
                         }
                         if let Some(k) = sk {
-                            if k != (if s.ty == "m.room.member" { "@a:s" } else { "" }) {
+                            if k != state_key_of(s.ty) {
                                 bad.push((0, format!("state_key is {k:?}")));
                             }
                         }
@@ -281,7 +300,7 @@ fn check_event(acc: &mut Acc, s: &Schema, label: &str, content: &Value, redacted
                         }
                     }
                     if !redacted {
-                        let stripped = json!({"type": s.ty, "content": content, "sender": "@a:s", "state_key": if s.ty == "m.room.member" { "@a:s" } else { "" }});
+                        let stripped = json!({"type": s.ty, "content": content, "sender": "@a:s", "state_key": state_key_of(s.ty)});
                         let mut t = String::new();
                         render(&stripped, reversed, &mut t);
                         match serde_json::from_str::<AnyStrippedStateEvent>(&t) {
@@ -449,7 +468,7 @@ pub fn run(_tier: &str) -> Report {
         acc.samples.clone(),
     ));
     Report {
-        bound: format!("{} events: 23 event types (18 specified + 5 unknown, of every kind) x content shapes (required only, each optional field, all optional fields, an unknown field) x original/redacted x sorted/reversed key order, each also in sync / state / stripped format where applicable", acc.n),
+        bound: format!("{} events: 33 event types (28 specified + 5 unknown, of every kind) x content shapes (required only, each optional field, all optional fields, an unknown field) x original/redacted x sorted/reversed key order, each also in sync / state / stripped format where applicable", acc.n),
         cases: acc.n,
         obligations: vec![
             ("typed_deserialization_dispatches_by_type_and_exposes_the_json_fields", acc.n, acc.f_parse),
